@@ -384,7 +384,7 @@ def lock_obligations(ctx):
     ctx.obligation("translate:LoginLockGen", "translation failed" not in text, text[:600] if "translation failed" in text else "")
     with core.coq_lock():
         rc, out = core.make(["Proofs/C17Lock.vo"])
-    lemmas = ["Gen_cache_accesses_locked", "Gen_cache_access_shape"]
+    lemmas = ["Gen_cache_accesses_locked", "Gen_cache_access_shape", "Gen_shared_attrs_locked"]
     failed_at = None
     err = ""
     if rc != 0:
@@ -397,6 +397,13 @@ def lock_obligations(ctx):
     if rc != 0:
         rows = [l.strip() for l in text.splitlines() if "mkAccess" in l]
         ctx.extra["cache_access_table"] = rows
+        try:
+            from translate import t_c17
+            bad_rows = [r for r in t_c17.class_analysis(core.REPO)["rows"] if not (r[4] or (not r[3] and r[5]))]
+            ctx.extra["shared_attributes_outside_the_lock"] = ["%s (line %d, %s, %s)" % (r[2], r[0], r[1], "write" if r[3] else "read")
+                                                               for r in bad_rows]
+        except Exception as e:  # noqa: BLE001
+            ctx.extra["shared_attributes_outside_the_lock"] = "analysis failed: %r" % (e,)
         ctx.notes.append("lock discipline broken: some access to a cache dictionary other than a single atomic read is outside "
                          "`with self._lock:` (or the lock is taken by bare acquire()/release()); see cache_access_table")
 
@@ -404,7 +411,8 @@ def lock_obligations(ctx):
 def conc_scenarios(ctx):
     cfg = base_cfg(exp_s=15, exp_f=90)
     creds = [["alice", "pa", "alice"], ["bob", "pb", "bob"], ["carol", "pc", "carol"]]
-    mk = lambda prefix, threads, **kw: dict(cfg=kw.get("cfg", cfg), t0=T0, creds=creds, prefix=prefix, threads=threads)  # noqa: E731
+    mk = lambda prefix, threads, **kw: dict(cfg=kw.get("cfg", cfg), t0=T0, creds=creds, prefix=prefix, threads=threads,  # noqa: E731
+                                            followups=kw.get("followups", []))
     fixed = [
         ("expired-failed-entry,two-other-logins", mk([["A", "bob", "w"], ["T", 91 * S]], [["alice", "pa", 0], ["carol", "pc", 0]])),
         ("expired-success-entry,same-login-twice", mk([["A", "alice", "pa"], ["T", 16 * S]], [["alice", "pa", 0], ["alice", "pa", 0]])),
@@ -412,6 +420,9 @@ def conc_scenarios(ctx):
         ("failed-entry-expires-between-the-threads", mk([["A", "bob", "w"], ["T", 91 * S - 1]], [["bob", "w", 0], ["alice", "pa", 1]])),
         ("success-entry-expires-between-the-threads", mk([["A", "alice", "pa"], ["T", 16 * S - 1]], [["alice", "pa", 0], ["alice", "pa", 1]])),
         ("valid-success-entry,right-and-wrong-password", mk([["A", "alice", "pa"], ["T", 5 * S]], [["alice", "pa", 0], ["alice", "w", 0]])),
+        ("wrong-password-in-failed-cache,right-password-concurrently",
+         mk([["A", "alice", "typo"], ["T", 1 * S]], [["alice", "typo", 0], ["alice", "pa", 0]],
+            followups=[["alice", "pa"], ["alice", "typo"], ["bob", "pb"]])),
         ("no-entries,same-login-twice", mk([], [["alice", "pa", 0], ["alice", "pa", 0]])),
         ("two-expired-failed-entries,two-logins", mk([["A", "bob", "w"], ["A", "carol", "w"], ["T", 91 * S]],
                                                      [["bob", "w", 0], ["carol", "pc", 0]])),
@@ -442,7 +453,8 @@ def concurrency(ctx):
     """Two (three) threads inside the real login under a deterministic scheduler; every schedule with a bounded number of
     preemptions + seeded random schedules: no exception, all terminate, lock free afterwards, users = some serial order."""
     lines = XC.yield_lines()
-    ctx.extra["concurrent_scheduling_points"] = sorted(lines)
+    ctx.extra["concurrent_scheduling_points"] = sorted(lines[0])
+    ctx.extra["concurrent_traced_methods"] = sorted(lines[1])
     reported = set()
     total = 0
     for label, scn in conc_scenarios(ctx):
@@ -455,7 +467,7 @@ def concurrency(ctx):
             reported.add(bad["rule"])
             ctx.violation("C17 %s: %s" % (bad["rule"], bad["text"]),
                           dict(rule=bad["rule"], scenario=scn, label=label, schedule=bad["schedule"],
-                               results=[list(r) for r in bad["results"]],
+                               results=[list(r) for r in bad["results"]], followups=bad.get("followups"),
                                executed_lines=["thread %d line %d" % (t, ln) for t, ln in bad["trace"]],
                                note="replay: ./check C17 --replay <this file> re-runs this schedule on the real BaseAuth.login; "
                                     "schedule = the thread chosen at each scheduling point (lines of login that touch the caches, "
@@ -540,6 +552,8 @@ def replay(ctx, path):
         for t, ln in rec["trace"]:
             print("  thread %d line %d" % (t, ln))
         print("results:", rec["results"], "lock left held:", rec["lock_left_held"])
+        for f in rec.get("followups", []):
+            print("follow-up login(%r, %r) -> %r" % (f["login"], f["pw"], f["out"]))
         print("monitor:", bad)
         return 1 if bad else 0
     case = rp.get("case")
